@@ -8,4 +8,4 @@ import FinProtoc.Props.C12
 #print axioms FinProtoc.Props.bad_option_value_diag
 #print axioms FinProtoc.Props.dup_option_diag
 #print axioms FinProtoc.Props.good_option_ok
-#print axioms FinProtoc.Props.padchar_nul_rejected
+#print axioms FinProtoc.Props.padchar_nul_accepted
